@@ -415,6 +415,35 @@ func (w *workload) createTopic(name string, n int32) {
 	w.a(id, fmt.Sprintf("%d", r.ErrorCode))
 }
 
+// createPartitions raises the partition count of a topic; with explicit set, the request carries a replica assignment
+// for every new partition (kfake builds those partitions on a different branch than without an assignment).
+func (w *workload) createPartitions(name string, count int32, explicit bool) {
+	req := kmsg.NewPtrCreatePartitionsRequest()
+	req.TimeoutMillis = 5000
+	rt := kmsg.NewCreatePartitionsRequestTopic()
+	rt.Topic = name
+	rt.Count = count
+	if explicit {
+		for i := int32(w.in.nparts[name]); i < count; i++ {
+			a := kmsg.NewCreatePartitionsRequestTopicAssignment()
+			a.Replicas = []int32{0}
+			rt.Assignment = append(rt.Assignment, a)
+		}
+	}
+	req.Topics = append(req.Topics, rt)
+	id := w.q(fmt.Sprintf("CP:%s:%d", name, count))
+	kresp, err := w.in.do(req)
+	if err != nil {
+		w.a(id, "-1")
+		return
+	}
+	r := kresp.(*kmsg.CreatePartitionsResponse).Topics[0]
+	if r.ErrorCode == 0 {
+		w.in.nparts[name] = int(count)
+	}
+	w.a(id, fmt.Sprintf("%d", r.ErrorCode))
+}
+
 // run executes n steps. Every step is one request (occasionally preceded by the InitProducerID it needs).
 func (w *workload) run(n int) {
 	if w.script > 0 {
@@ -432,6 +461,11 @@ func (w *workload) run(n int) {
 			tp, k = "t0-0", 0
 		}
 		switch {
+		case k < 4 && w.in.nparts["t0"] > 0 && w.in.nparts["t0"] < 4:
+			// the topic grows (more often with an explicit replica assignment); later steps produce to the new partitions
+			explicit := w.r.Chance(60)
+			w.createPartitions("t0", int32(w.in.nparts["t0"]+1+w.r.Intn(2)), explicit)
+			hx.St.Inc(fmt.Sprintf("req.createpartitions.explicit-%v", explicit))
 		case k < 18:
 			w.produce(tp, "p", nil)
 			hx.St.Inc("req.produce.plain")
@@ -473,6 +507,12 @@ func (w *workload) run(n int) {
 			hx.St.Inc("req.offsetcommit")
 		default:
 			if _, ok := w.in.topics["t1"]; ok {
+				if tn := hx.Pick(w.r, []string{"t0", "t1"}); w.in.nparts[tn] > 0 && w.in.nparts[tn] < 4 && w.r.Chance(60) {
+					explicit := w.r.Chance(60)
+					w.createPartitions(tn, int32(w.in.nparts[tn]+1+w.r.Intn(2)), explicit)
+					hx.St.Inc(fmt.Sprintf("req.createpartitions.explicit-%v", explicit))
+					break
+				}
 				w.commit("g0", tp, int64(w.r.Intn(50)))
 				hx.St.Inc("req.offsetcommit")
 			} else {
